@@ -61,6 +61,14 @@ func init() {
 	pt.stream = 160 // short stream, replayed often: n-grams recur at shifted positions
 	pt.badCfgPct = 0
 	suites["p-reset"] = pSuite(pt, []string{"p.twin.fresh"})
+	suites["p-large"] = func(r *rng, id string, cnt counters, emit func(line, out string)) ([]finding, bool) {
+		e, d := genPLarge(r, id, cnt, emit)
+		fs := e.finds
+		if d != nil {
+			fs = append(fs, d.finds...)
+		}
+		return fs, true
+	}
 	suites["p-bigbuf"] = func(r *rng, id string, cnt counters, emit func(line, out string)) ([]finding, bool) {
 		e := genPBig(r, id, cnt, emit)
 		return e.finds, true
